@@ -234,3 +234,68 @@ func c09R3(c *Ctx, r *Report) {
 	r.Note("C09.R3: %d reader functions in mir/gen + codegen", n)
 	_ = constant.MakeBool
 }
+
+func init() { lateInits = append(lateInits, func() { props["C09"].Quick = append(props["C09"].Quick, c09R4) }) }
+
+// C09.R4: if the constant evaluator folds casts, an integer narrowing consults both the width and the
+// signedness of the target type (a fold that only masks by width gives 254 for `254 as i8`, the program -2).
+func c09R4(c *Ctx, r *Report) {
+	const rule = "C09.R4"
+	r.Describe(rule, "consteval: a folded cast (if any) derives its result from the target's bit width and signedness")
+	ev := c.LookupFn("internal/hir/consteval", "EvaluateHIRExpr")
+	if !r.Anchor(rule, ev != nil, "consteval.EvaluateHIRExpr") {
+		return
+	}
+	info := ev.Info()
+	var castClause *ast.CaseClause
+	ast.Inspect(ev.Decl.Body, func(x ast.Node) bool {
+		if cc, ok := x.(*ast.CaseClause); ok {
+			for _, t := range caseTypes(info, cc) {
+				if nt := namedOf(t); nt != nil && nt.Obj().Name() == "CastExpr" {
+					castClause = cc
+				}
+			}
+		}
+		return true
+	})
+	if castClause == nil {
+		r.OK(rule, ev.Name(), "casts are not folded (evaluated at run time only)", c.pos(ev.Decl.Pos()), "no *hir.CastExpr case")
+		return
+	}
+	// functions reachable from the clause
+	seen := map[*types.Func]bool{}
+	var work []*Fn
+	for _, st := range castClause.Body {
+		for _, call := range callsIn(st, true) {
+			if f := callee(info, call); f != nil && !seen[f] {
+				seen[f] = true
+				if fn := c.FnOf(f); fn != nil && fn.Decl.Body != nil && f != ev.Obj {
+					work = append(work, fn)
+				}
+			}
+		}
+	}
+	for len(work) > 0 {
+		f := work[len(work)-1]
+		work = work[:len(work)-1]
+		for _, call := range callsIn(f.Decl.Body, true) {
+			if g := callee(f.Info(), call); g != nil && !seen[g] {
+				seen[g] = true
+				if gf := c.FnOf(g); gf != nil && gf.Decl.Body != nil && g != ev.Obj {
+					work = append(work, gf)
+				}
+			}
+		}
+	}
+	width, sign := false, false
+	for f := range seen {
+		switch f.Name() {
+		case "GetNumberBitSize", "FitsInBitSize", "intBitSize":
+			width = true
+		case "IsSigned", "IsUnsigned", "IsSignedTypeName", "IsUnsignedTypeName", "isSigned", "isUnsigned":
+			sign = true
+		}
+	}
+	r.Check(width && sign, rule, ev.Name(), "folded cast uses width and signedness of the target", c.pos(castClause.Pos()),
+		fmt.Sprintf("the constant folder evaluates casts with width=%v signedness=%v: without the target's signedness `254 as i8` folds to 254 and `-1 as u8` to -1 while the running program computes -2 and 255 — constant and non-constant spellings of one program disagree", width, sign))
+}
